@@ -41,12 +41,23 @@ def u64(a):
     return np.ascontiguousarray(a).view(np.uint64)
 
 
-def check_single(dp, T, W, N, acc, salt=0):
+def check_single(dp, T, W, N, acc, salt=0, view=None):
     data = distinct_cells(T, N, salt)
+    if view == "wide":
+        # a column slice of a wider array: rows are contiguous, consecutive rows are not adjacent in memory
+        wide = distinct_cells(T, N + 3, salt + 11)
+        wide[:, :N] = data
+        data = wide[:, :N]
+    elif view == "every_other":
+        long_ = distinct_cells(2 * T, N, salt + 13)
+        long_[::2] = data
+        data = long_[::2]
+    elif view == "fortran":
+        data = np.asfortranarray(data)
     keep = u64(data).copy()
     out = dp.stack_training_data(data, W)
     acc.n += 1
-    case = {"kind": "single", "T": T, "W": W, "N": N, "salt": salt}
+    case = {"kind": "single", "T": T, "W": W, "N": N, "salt": salt, "view": view}
     if not np.array_equal(u64(data), keep):
         acc.fail(case, "input series modified by stacking")
     if not isinstance(out, np.ndarray) or out.shape != (T - W + 1, N * W):
@@ -76,6 +87,9 @@ def work_single(task):
         if stopped():
             break
         check_single(dp, T, W, N, acc)
+        if T in (W, W + 1, W + 6, W + 17):
+            for view in ("wide", "every_other", "fortran"):
+                check_single(dp, T, W, N, acc, view=view)
     # value-equality for int / float32 inputs
     for T in (W, W + 3):
         for dt in (np.int64, np.float32, np.int8):
@@ -206,7 +220,7 @@ def run(ctx):
     ctx.cov["exhaustive"] = True
     ctx.cov["rule"] = (
         "every (T,W,N) with W in 1..12, N in 1..6, T in W..W+40 (2952 triples), cells = pairwise distinct "
-        "bit patterns incl. NaN payloads, inf, -0.0, denormals, compared as uint64; every tuple of 1..6 series "
+        "bit patterns incl. NaN payloads, inf, -0.0, denormals, compared as uint64 (for four T per (W,N) also as a column slice of a wider array, an every-other-row view and a Fortran-ordered array); every tuple of 1..6 series "
         "lengths from {W,W+1,W+3} for W in " + str(list(ws)) + " x N in {1,2}: joint stacking == vstack of "
         "individual reference stackings (also with rows that are NaN on every sensor and with a series that is all +-0.0), call sequences in one process in three orders (output shapes collide across (W,N)), split+pad round trip; int64/float32/int8 inputs by value; "
         "non-trivial = W>1 and T>W (single) or >= 2 series (multi)")
@@ -218,7 +232,7 @@ def replay(ctx, case):
     from fast_ticc import data_preparation as dp
     acc = Acc()
     if case["kind"] == "single":
-        check_single(dp, case["T"], case["W"], case["N"], acc, case.get("salt", 0))
+        check_single(dp, case["T"], case["W"], case["N"], acc, case.get("salt", 0), case.get("view"))
         ctx.take(acc.result())
     elif case["kind"] == "history":
         ctx.take(work_history((case["order"],)))
